@@ -141,17 +141,26 @@ def case_class(c):
 
 
 def shrink_candidates(c):
+    # every candidate costs one harness run (seconds of real time for a window), so only a few
     if c["kind"] == "win":
         s = c.get("sched", [])
-        for i in range(len(s)):
+        if len(s) > 2:
+            yield dict(c, sched=s[len(s) // 2:])
+            yield dict(c, sched=s[:len(s) // 2 + 1])
+        for i in list(range(len(s)))[:4]:
             if len(s) > 1:
                 yield dict(c, sched=s[:i] + s[i + 1:])
     elif c["kind"] == "query":
         p = c.get("prior", [])
-        for i in range(len(p)):
-            yield dict(c, prior=p[:i] + p[i + 1:])
+        if p:
+            yield dict(c, prior=[])
+            same = [x for x in p if x["name"] == c["q"]["name"] and x["qtype"] == c["q"]["qtype"]]
+            if same and len(same) < len(p):
+                yield dict(c, prior=same)
+            if len(p) > 1:
+                yield dict(c, prior=p[len(p) // 2:])
     elif c["kind"] == "conc":
         t = c["threads"]
-        for i in range(len(t)):
-            if len(t) > 1:
-                yield dict(c, threads=t[:i] + t[i + 1:])
+        if len(t) > 1:
+            yield dict(c, threads=t[:len(t) // 2])
+            yield dict(c, threads=t[len(t) // 2:])
